@@ -592,6 +592,10 @@ pub fn integrity<G: AffineRepr>(curve: &str, ci: u64, seed: u64, tier: &str, out
                 note(c, format!("adaptive-blinding-compensation-dir{}", dir), &b, &mut cnt, &mut first);
             }
         }
+        let _ = writeln!(out, "ADAPTB {} {} total={} decode_rejected={} identical={} verify_rejected={} accepted={} panicked={} first={}", curve, pi, tried, cnt[0], cnt[1], cnt[2], cnt[3], cnt[9], first);
+        let mut cnt = [0usize; 10];
+        let mut first = String::from("-");
+        let mut tried = 0;
         // (b'') adaptive compensation between second-phase commitments of a one-phase proof: choose K, read x from the
         // verifier's run on the altered proof, publish (A_I2, A_O2) = (-x K, K) resp. (A_O2, S2) = (-x K, K).  The terms
         // u x A_I2 + u x^2 A_O2 cancel; sound only if these points are absorbed before x is derived.
